@@ -28,7 +28,7 @@ def make_cases(rng, _n):
         k += 1
         c.kind, c.expect_accept = kind, expect_accept
         c.forms = {kind: 1}
-        c.meanings = "(meanings (v %s (int 1)) (v %s (str %s)) (v %s (bool true)) (m %s %s))" % (tgen.hexs("1"), tgen.hexs('"s"'), tgen.hexs("s"), tgen.hexs("true"), tgen.hexs("clone"), tgen.hexs("id"))
+        c.meanings = "(meanings (v %s (int 1)) (v %s (str %s)) (v %s (bool true)) (v %s (str %s)) (p %s (cmp eq (int 1))) (m %s %s))" % (tgen.hexs("1"), tgen.hexs('"s"'), tgen.hexs("s"), tgen.hexs("true"), tgen.hexs('"k"'), tgen.hexs("k"), tgen.hexs(tgen.squash("|x| *x == 1")), tgen.hexs("clone"), tgen.hexs("id"))
         t3.finish_case(c, decls, ty, value, sexp, pat)
         cases.append(c)
 
@@ -78,6 +78,17 @@ def make_cases(rng, _n):
             add(decls, ty, value, sexp, "_ { }", "wildcard-without-rest", False)
             add(decls, ty, value, sexp, "_ { %s }" % ", ".join("%s: %s" % (f, lit[t]) for f, t in fields), "wildcard-without-rest", False)
             add(decls, ty, value, sexp, "_ { %s: %s, .. }" % (fields[0][0], lit[fields[0][1]]), "wildcard-with-rest", True)
+            if name == "P2":
+                # ... and below every kind of composite: the rule holds at any depth
+                wl = "_ { x: 1 }"
+                wr = "_ { x: 1, .. }"
+                for wkind, wpat, wty, wval, wsx in (("some", "Some(%s)", "Option<%s>", "Some(%s)", adt("Some", [], ["%s"])), ("tuple", "(%s, _)", "(%s, u8)", "(%s, 1u8)", "(tuple %s (int 1))"),
+                                                   ("slice", "[%s]", "Vec<%s>", "vec![%s]", "(seq %s)"), ("set", "#(%s)", "Vec<%s>", "vec![%s]", "(seq %s)"),
+                                                   ("map-value", '#{ "k": %s }', "BTreeMap<String, %s>", 'BTreeMap::from([("k".to_string(), %s)])', "(map (keys (str %s)) (vals %%s))" % tgen.hexs("k")),
+                                                   ("map-value-in-slice", '#{ "k": [%s], .. }', "BTreeMap<String, Vec<%s>>", 'BTreeMap::from([("k".to_string(), vec![%s])])', "(map (keys (str %s)) (vals (seq %%s)))" % tgen.hexs("k")),
+                                                   ("closure-sibling", "(%s, |x| *x == 1)", "(%s, u8)", "(%s, 1u8)", "(tuple %s (int 1))")):
+                    add(decls, wty % ty, wval % value, wsx % sexp, wpat % wl, "wildcard-without-rest", False)
+                    add(decls, wty % ty, wval % value, wsx % sexp, wpat % wr, "wildcard-with-rest-nested", True)
             add(decls, ty, value, sexp, "_ { nonexistent: 1, .. }", "wildcard-unknown-field", False)
         else:
             add(decls, ty, value, sexp, "E::W { w: 1, .. }", "wrong-variant-name", False)
